@@ -134,6 +134,42 @@ def run(tier, seed, replay=None):
     import c02
     c02.scan_counter_cases(chk, 15 if tier == "quick" else 300)
 
+    # ---- a Report consulted while its code base is still being filled (the report reader creates the Report first and adds the
+    #      files afterwards): after the last file and the aggregation its profile is the profile of ALL files — the root folder's
+    #      (seeded change C07-20: the measurement list collected once per report and kept)
+    from codelimit.common.Codebase import Codebase
+    from codelimit.common.Location import Location
+    from codelimit.common.Measurement import Measurement
+    from codelimit.common.SourceFileEntry import SourceFileEntry
+    from codelimit.common.report.Report import Report
+    for i in range(40 if tier == "quick" else 1000):
+        es = [gen_entry(chk.rng, p) for p in gen_paths(chk.rng, chk.rng.choice([2, 3, 5]))]
+        try:
+            cb = Codebase("/root")
+            rep = Report(cb)
+            k = chk.rng.randrange(0, len(es))
+            for j, (path, ck, lang, ms) in enumerate(es):
+                if j == k:
+                    rep.quality_profile(), rep.get_average(), rep.ninetieth_percentile()       # consulted half-way
+                mm = [Measurement(f"f{n}", Location(n + 1, 1), Location(n + 2, 3), v) for n, v in enumerate(ms)]
+                cb.add_file(SourceFileEntry(path, ck, lang, sum(ms), mm))
+            cb.aggregate()
+            prof = list(rep.quality_profile())
+            want = [0, 0, 0, 0]
+            for _, _, _, ms in es:
+                for v in ms:
+                    want[cat(v)] += v
+            chk.evaluations += 1
+            chk.count("report consulted before its code base was complete")
+            if prof != want or list(cb.tree["./"].profile) != want:
+                chk.violation({"entries": es, "consulted_before_file": k},
+                              f"a report consulted after {k} of {len(es)} files shows the profile {prof} once all files are in; the files add up to {want}, "
+                              f"the root folder says {list(cb.tree['./'].profile)}")
+            else:
+                chk.nontrivial.add(("late", i))
+        except Exception as ex:
+            chk.violation({"entries": es}, f"building a report step by step raised {type(ex).__name__}: {ex}")
+
     def one(entries, tag):
         try:
             cb = impl_build(entries)
